@@ -53,6 +53,8 @@ BOUNDS = {
              "the same mask, on an equal-pattern mask with another origin, Grid2D with another over-sampling) in every Grid2D case; "
              "subclass inputs (aa.Grid2DIrregularUniform; trivial harness subclasses of Grid2D / Grid2DIrregular / Grid1D) through every decorator and "
              "return kind: <=3 points, Grid1D length<=3, Grid2D masks of 1x1, 1x2, 2x2; "
+             "user functions returning a list with exactly one entry and an empty list (every decorator and container); the caller's grid "
+             "is compared with its coordinates after every decorated call; "
              "the stack is called with no keyword, is_transformed=True and is_transformed=False, directly and NESTED (a to_array(transform) "
              "method whose body calls a transform(relocate) method of the same object with its **kwargs); "
              "histories: two grids with different symbolic coordinates on ONE mask geometry (separate equal mask objects) called A, B, A through "
@@ -180,6 +182,12 @@ class UserFns:
             return [self.column(0, coords), self.column(1, coords)]
         if kind == "list_pair":
             return [_pairs(self.column(0, coords), self.column(1, coords)), _pairs(self.column(2, coords), self.column(3, coords))]
+        if kind == "list1_scalar":                     # a list with exactly one entry stays a one-entry list
+            return [self.column(0, coords)]
+        if kind == "list1_pair":
+            return [_pairs(self.column(0, coords), self.column(1, coords))]
+        if kind == "list0":                            # an empty list stays an empty list
+            return []
         raise ValueError(kind)
 
 
@@ -236,7 +244,7 @@ def _ite(c, a, b):
     return shim._ite(c, a, b)
 
 
-RET_N = {"scalar": 1, "pair": 1, "list_scalar": 2, "list_pair": 2}
+RET_N = {"scalar": 1, "pair": 1, "list_scalar": 2, "list_pair": 2, "list1_scalar": 1, "list1_pair": 1, "list0": 0}
 
 
 def _check_container_list(A, E, key, res, kind, cls_name, ret_list, per_item):
@@ -264,7 +272,11 @@ def _check_container_list(A, E, key, res, kind, cls_name, ret_list, per_item):
 
 DEC_KINDS = (("to_array", "scalar", "Array2D", "ArrayIrregular"), ("to_array", "list_scalar", "Array2D", "ArrayIrregular"),
              ("to_grid", "pair", "Grid2D", "Grid2DIrregular"), ("to_grid", "list_pair", "Grid2D", "Grid2DIrregular"),
-             ("to_vector_yx", "pair", "VectorYX2D", "VectorYX2DIrregular"), ("to_vector_yx", "list_pair", "VectorYX2D", "VectorYX2DIrregular"))
+             ("to_vector_yx", "pair", "VectorYX2D", "VectorYX2DIrregular"), ("to_vector_yx", "list_pair", "VectorYX2D", "VectorYX2DIrregular"),
+             ("to_array", "list1_scalar", "Array2D", "ArrayIrregular"), ("to_grid", "list1_pair", "Grid2D", "Grid2DIrregular"),
+             ("to_vector_yx", "list1_pair", "VectorYX2D", "VectorYX2DIrregular"),
+             ("to_array", "list0", "Array2D", "ArrayIrregular"), ("to_grid", "list0", "Grid2D", "Grid2DIrregular"),
+             ("to_vector_yx", "list0", "VectorYX2D", "VectorYX2DIrregular"))
 
 
 _SUB = {}
@@ -339,6 +351,8 @@ def body_grid2d(inp, H, W, variant, scales, sub="base"):
         E[key + ".seen"] = _pairs(_arr([r[0] for r in ref]), _arr([r[1] for r in ref]))
         A[key + ".calls"] = len(log)
         E[key + ".calls"] = 1
+        A[key + ".input_untouched"] = _coords(grid)          # the caller's grid still holds its coordinates after the call
+        E[key + ".input_untouched"] = E[key + ".seen"]
         exp = uf.ret(kind, ref)
         exp = exp if isinstance(exp, list) else [exp]
 
@@ -397,6 +411,8 @@ def body_irregular(inp, N, sub="base"):
         E[key + ".seen"] = ref_arr
         A[key + ".calls"] = len(log)
         E[key + ".calls"] = 1
+        A[key + ".input_untouched"] = _coords(grid)
+        E[key + ".input_untouched"] = ref_arr
         exp = uf.ret(kind, ref)
         exp = exp if isinstance(exp, list) else [exp]
 
@@ -499,7 +515,9 @@ def body_grid1d(inp, N, variant, angle, sub="base"):
     ref0 = [(zero, x) for x in xs]                                   # projected line at angle 0: (0, x_k)
     ref0_arr = _pairs(_arr([r[0] for r in ref0]), _arr([r[1] for r in ref0]))
     for dec, kind, cls in (("to_array", "scalar", "Array1D"), ("to_array", "list_scalar", "Array1D"),
-                           ("to_grid", "pair", "Grid2D"), ("to_grid", "list_pair", "Grid2D")):
+                           ("to_grid", "pair", "Grid2D"), ("to_grid", "list_pair", "Grid2D"),
+                           ("to_array", "list1_scalar", "Array1D"), ("to_grid", "list1_pair", "Grid2D"),
+                           ("to_array", "list0", "Array1D"), ("to_grid", "list0", "Grid2D")):
         key = "%s.%s" % (dec, kind)
         log = []
         P = _profile("C17Profile", _user(uf, log, kind), [getattr(aa.grid_dec, dec)], centre=(0.0, 0.0))
@@ -510,6 +528,8 @@ def body_grid1d(inp, N, variant, angle, sub="base"):
         E[key + ".seen"] = ref0_arr
         A[key + ".calls"] = len(log)
         E[key + ".calls"] = 1
+        A[key + ".input_untouched"] = _coords(grid)
+        E[key + ".input_untouched"] = _arr(xs)
         exp = uf.ret(kind, ref0)
         exp = exp if isinstance(exp, list) else [exp]
 
@@ -542,6 +562,8 @@ def body_grid1d(inp, N, variant, angle, sub="base"):
         TOL[key + ".seen"] = 1e-9
     A[key + ".calls"] = len(log)
     E[key + ".calls"] = 1
+    A[key + ".input_untouched"] = _coords(grid)
+    E[key + ".input_untouched"] = _arr(xs)
     # entry k of the result is what the function returned for the k-th projected coordinate (an exact pairing)
     exp = [log[-1]["ret"]] if log else [None]
 
@@ -994,6 +1016,8 @@ def body_stack(inp, kind, N, rot, H=0, W=0):
             E[tag + ".is_transformed_flag"] = True
             A[tag + ".seen_type"] = rec["type"] if rec else None
             E[tag + ".seen_type"] = {"irregular": "Grid2DIrregular", "grid2d": "Grid2D"}[kind]
+            A[tag + ".input_untouched"] = _coords(grid)
+            E[tag + ".input_untouched"] = p
             # (with a rotation the reference uses the same float64 cos/sin as geometry_util, so the relation is exact in real arithmetic)
             _reloc_obligations(A, E, tag, pts, rec["coords"] if rec else None, rmin, TOL)
             exp_ret = [rec["ret"]] if rec else [None]
@@ -1086,6 +1110,8 @@ def body_history(inp, family, N, origin_mode="conc"):
             E[key + ".seen_type"] = seen_type
             A[key + ".seen"] = rec["coords"] if rec else None
             E[key + ".seen"] = _pairs(_arr([r[0] for r in ref]), _arr([r[1] for r in ref]))
+            A[key + ".input_untouched"] = _coords(grids[which])
+            E[key + ".input_untouched"] = _arr([r[1] for r in ref]) if family == "grid1d" else E[key + ".seen"]
             if cls is None:
                 # to_vector_yx has no 1D container: the function is still evaluated on this grid's projected line, then it raises
                 A[key + ".raises"] = res if isinstance(res, hx.Raised) else "returned"
